@@ -17,24 +17,52 @@ func oracle(ops, outs []string) *corr.Violation {
 	mk := func(i int, sig, msg string) *corr.Violation {
 		return &corr.Violation{Signature: "C31:" + sig, Message: fmt.Sprintf("op %d %q answered %q: %s", i, ops[i], outs[i], msg), Ops: ops, Impl: outs}
 	}
-	n, thr := 0, 0
+	n := 0
+	var pools [][]int
+	slotOf := map[string]int{}
+	inPool := func(blk string, j int) bool {
+		sl := slotOf[blk]
+		if sl >= len(pools) {
+			return false
+		}
+		for _, v := range pools[sl] {
+			if v == j {
+				return true
+			}
+		}
+		return false
+	}
+	thrOf := func(blk string) int {
+		sl := slotOf[blk]
+		if sl >= len(pools) {
+			return 1 << 30
+		}
+		return (len(pools[sl])*66 + 99) / 100
+	}
 	indiv := map[string]string{}
 	validFrom := map[string]map[int]bool{} // block -> miners with a valid ticket delivered
 	attached := map[string][]string{}
 	unverifiedInBlock := map[string]bool{} // an attached, never verified, invalid ticket may sit in the chain copy
+	encSeen := map[string]map[string]bool{} // block|verifier|sigidx -> encodings delivered as single ticket messages
+	reenc := map[string]bool{}              // block: the same valid ticket arrived in two encodings
 	dupsInMsg := 0
 	note := func(blk string, entries []string) (invalid int) {
 		seen := map[string]bool{}
 		dupsInMsg = 0
 		for _, e := range entries {
 			f := strings.Split(e, ":")
+			if len(f) == 3 && f[2] == "u" {
+				f = f[:2] // another encoding of the same signature
+			}
 			if len(f) != 2 || len(f[0]) < 2 {
 				continue
 			}
 			ok := false
 			if f[0][0] == 'n' {
 				j, err := strconv.Atoi(f[0][1:])
-				if err == nil && j < n && indiv[f[0]+"|"+f[1]+"|blk-"+blk] == "true" {
+				// a ticket counts for the property only if its verifier is a miner of the magic block in force for the
+				// block's round and the signature is individually valid
+				if err == nil && j < n && inPool(blk, j) && indiv[f[0]+"|"+f[1]+"|blk-"+blk] == "true" {
 					if validFrom[blk] == nil {
 						validFrom[blk] = map[int]bool{}
 					}
@@ -68,13 +96,42 @@ func oracle(ops, outs []string) *corr.Violation {
 		blk := ""
 		switch w[0] {
 		case "dkg":
-			n, thr = 0, 0
+			n, pools, slotOf = 0, nil, map[string]int{}
 			indiv, validFrom, attached, unverifiedInBlock = map[string]string{}, map[string]map[int]bool{}, map[string][]string{}, map[string]bool{}
+			encSeen, reenc = map[string]map[string]bool{}, map[string]bool{}
 		case "miners":
 			if len(w) == 2 && out == "ok" {
 				n, _ = strconv.Atoi(w[1])
-				thr = (n*66 + 99) / 100
+				all := make([]int, n)
+				for j := range all {
+					all[j] = j
+				}
+				pools, slotOf = [][]int{all}, map[string]int{}
 				validFrom, attached, unverifiedInBlock = map[string]map[int]bool{}, map[string][]string{}, map[string]bool{}
+				encSeen, reenc = map[string]map[string]bool{}, map[string]bool{}
+			}
+		case "miners2":
+			if len(w) == 3 && out == "ok" {
+				l0, _ := intList(w[1])
+				l1, _ := intList(w[2])
+				pools, slotOf = [][]int{l0, l1}, map[string]int{}
+				n = 0
+				for _, p := range pools {
+					for _, j := range p {
+						if j+1 > n {
+							n = j + 1
+						}
+					}
+				}
+				validFrom, attached, unverifiedInBlock = map[string]map[int]bool{}, map[string][]string{}, map[string]bool{}
+				encSeen, reenc = map[string]map[string]bool{}, map[string]bool{}
+			}
+		case "block":
+			if (len(w) == 4 || len(w) == 5) && out == "ok" {
+				slotOf[w[1]] = 0
+				if len(w) == 5 {
+					slotOf[w[1]], _ = strconv.Atoi(w[4])
+				}
 			}
 		case "kverify":
 			if len(w) == 4 && (out == "true" || out == "false") {
@@ -96,6 +153,17 @@ func oracle(ops, outs []string) *corr.Violation {
 			if len(w) == 3 {
 				blk = w[1]
 				invalidInMsg = note(blk, []string{w[2]})
+				f := strings.Split(w[2], ":")
+				if invalidInMsg == 0 && len(f) >= 2 {
+					k := blk + "|" + f[0] + "|" + f[1]
+					if encSeen[k] == nil {
+						encSeen[k] = map[string]bool{}
+					}
+					encSeen[k][strings.Join(f[2:], ":")] = true
+					if len(encSeen[k]) > 1 {
+						reenc[blk] = true
+					}
+				}
 			}
 		case "notarization":
 			if len(w) == 3 {
@@ -111,8 +179,9 @@ func oracle(ops, outs []string) *corr.Violation {
 			continue
 		}
 		treated := strings.Contains(out, "notarized=true") || strings.Contains(out, "inround=true")
+		thr := thrOf(blk)
 		if treated && len(validFrom[blk]) < thr {
-			what := fmt.Sprintf("block %s is treated as notarized; only %d distinct miners delivered a valid ticket (threshold %d)", blk, len(validFrom[blk]), thr)
+			what := fmt.Sprintf("block %s is treated as notarized; only %d distinct miners of its round's magic block delivered a valid ticket (threshold %d)", blk, len(validFrom[blk]), thr)
 			switch {
 			case (w[0] == "notarization" || w[0] == "nblock") && invalidInMsg == 0 && dupsInMsg > 0 && !unverifiedInBlock[blk]:
 				return mk(i, "duplicate-tickets-counted", what)
@@ -122,6 +191,9 @@ func oracle(ops, outs []string) *corr.Violation {
 			case unverifiedInBlock[blk]:
 				// tickets attached to a received block object were merged into the block and counted without verification
 				return mk(i, "attached-tickets-counted-unverified", what)
+			case reenc[blk] && w[0] != "notarization" && w[0] != "nblock":
+				// one miner's valid ticket, received in two textual encodings of the same signature, was counted twice
+				return mk(i, "reencoded-ticket-counted-twice", what)
 			default:
 				return mk(i, "notarized-without-enough-valid-tickets", what)
 			}
